@@ -294,6 +294,9 @@ def gen_reply_table(rng, prog, n_names=None, force_modes=None):
             sig = [intern_type(prog, rng.choice([T.vec(T.vec(T.U32)), T.option(T.vec(T.option(T.U32))), T.vec(T.vec(T.STRING)), T.vec(T.option(T.vec(T.U32)))]))]
         else:
             sig = [intern_type(prog, T.random_type(rng)) for _ in range(rng.choice([1, 1, 2, 3]))]
+            if len(sig) >= 2 and rng.random() < 0.3:
+                # a 128-bit primitive among several payload values (a JSON number beyond the 64-bit range)
+                sig[rng.randrange(len(sig))] = intern_type(prog, rng.choice([T.U128, T.I128, T.vec(T.U128)]))
         table["names"][nm] = {"cover": cover, "payload": sig}
     # methods: group names with the same payload signature under shared methods sometimes
     method_names_taken = {h["name"] for h in cpart["handlers"]}
@@ -322,7 +325,7 @@ def gen_reply_table(rng, prog, n_names=None, force_modes=None):
         pnames = ["payload"] if sig == "raw" else [f"p{i + 1}" for i in range(len(sig))]
         if sig != "raw" and rng.random() < 0.3:
             # names that coincide with fields / locals of the generated builders
-            special = rng.sample(["id", "reply_on", "msg", "gas_limit"], min(len(sig), 4))
+            special = rng.sample(["id", "reply_on", "msg", "gas_limit", "contract", "payload"], min(len(sig), 4))
             pnames = special + pnames[len(special):]
         m["payload_names"] = pnames
         table["methods"].append(m)
